@@ -321,6 +321,10 @@ def run_harness(ctx, h):
                         us.append("%s:%d" % (lp["name"], h.unwind_funcs[fn]))
         except Exception:
             pass
+        # bounds for recursive functions: key "rec:<function>"
+        for k, v in h.unwind_funcs.items():
+            if k.startswith("rec:"):
+                us.append("%s:%d" % (k[4:], v))
         if us:
             extra = ["--unwindset", ",".join(us)]
         h._unwindset = extra
